@@ -108,7 +108,7 @@ def gen_vui(rng, max_num_ref_frames, shape=None):
     if shape is not None:
         nal, vcl = shape.get("nal", nal), shape.get("vcl", vcl)
     v["nal_hrd"] = gen_hrd(rng, shape.get("cnt") if shape else None) if nal else None
-    v["vcl_hrd"] = gen_hrd(rng, shape.get("cnt") if shape else None) if vcl else None
+    v["vcl_hrd"] = gen_hrd(rng, shape.get("cnt2", shape.get("cnt")) if shape else None) if vcl else None
     v["low_delay"] = rng.random() < 0.5
     v["pic_struct_present"] = shape.get("ps", rng.random() < 0.5) if shape else rng.random() < 0.5
     if rng.random() < 0.5:
